@@ -10,7 +10,8 @@
 EXTENDS TSMEngine, Json
 
 CONSTANTS GenLen,   \* number of steps per behaviour
-          Acts      \* enabled step kinds (profiles steer the random walk)
+          Acts,     \* enabled step kinds (profiles steer the random walk)
+          CrashIn   \* calls a crash step may cut: subset of {"idle","write","snapshot","compact","delete","restart"}
 
 VARIABLE hist
 gvars == <<st, hist>>
@@ -58,11 +59,11 @@ GReopen == /\ "reopen" \in Acts /\ AllIdle(st)
            /\ Log([a |-> "reopen"])
 
 \* ---- crashes.  `in` = the call that is running, `stage` = how far it got, `how` = fate of the un-synced tail
-GCrashIdle == /\ "crash" \in Acts /\ En_Crash(st) /\ Idle(st) /\ st.spc \in {"idle", "tmp"}
+GCrashIdle == /\ "crash" \in Acts /\ "idle" \in CrashIn /\ En_Crash(st) /\ Idle(st) /\ st.spc \in {"idle", "tmp"}
               /\ st' = Crash(st, LenT(st), FALSE)
               /\ Log([a |-> "crash", in |-> "idle"])
 GCrashWrite(b, how) ==
-  /\ "crash" \in Acts /\ En_Crash(st) /\ En_Write(st) /\ Idle(st) /\ st.spc \in {"idle", "tmp"}
+  /\ "crash" \in Acts /\ "write" \in CrashIn /\ En_Crash(st) /\ En_Write(st) /\ Idle(st) /\ st.spc \in {"idle", "tmp"}
   /\ LET s1 == WAppend(WCache(st, b)) IN
        st' = CASE how = "lost" -> Crash(s1, LenT(s1) - 1, FALSE)      \* nothing of the entry reached the disk
                [] how = "torn" -> Crash(s1, LenT(s1) - 1, TRUE)       \* a proper prefix of its bytes did
@@ -73,7 +74,7 @@ SnapTo(s, stage) ==
   IN CASE stage = "taken" -> s1 [] stage = "tmp" -> s2 [] stage = "renamed" -> s3
        [] stage = "cleared" -> s4 [] stage = "walremoved" -> SnapWalRemove(s4)
 GCrashSnap(stage) ==
-  /\ "crash" \in Acts /\ "snapshot" \in Acts /\ En_Crash(st) /\ En_SnapBegin(st) /\ AllIdle(st) /\ st.cache # Empty
+  /\ "crash" \in Acts /\ "snapshot" \in Acts /\ "snapshot" \in CrashIn /\ En_Crash(st) /\ En_SnapBegin(st) /\ AllIdle(st) /\ st.cache # Empty
   /\ LET s1 == SnapTo(st, stage) IN st' = Crash(s1, LenT(s1), FALSE)
   /\ Log([a |-> "crash", in |-> "snapshot", stage |-> stage])
 CompTo(s, stage) ==
@@ -83,7 +84,7 @@ CompTo(s, stage) ==
   IN CASE stage = "tmp" -> s1 [] stage = "renamed" -> s2 [] stage = "removed1" -> s3
        [] stage = "synced" -> CompRemoveAll(s2)
 GCrashComp(stage) ==
-  /\ "crash" \in Acts /\ "compact" \in Acts /\ En_Crash(st) /\ En_CompBegin(st) /\ AllIdle(st)
+  /\ "crash" \in Acts /\ "compact" \in Acts /\ "compact" \in CrashIn /\ En_Crash(st) /\ En_CompBegin(st) /\ AllIdle(st)
   /\ CompTmp(CompBegin(st)).cpc = "tmp"                 \* there is an output file (hooks for the stages exist)
   /\ LET s1 == CompTo(st, stage) IN st' = Crash(s1, LenT(s1), FALSE)
   /\ Log([a |-> "crash", in |-> "compact", stage |-> stage])
@@ -94,7 +95,7 @@ DelTo(s, S, lo, hi, stage) ==
   LET s1 == DelTombAll(DelFirst(DelBegin(s, S, lo, hi)))  s2 == DelCache(s1)  s3 == DelWal(s2)
   IN CASE stage = "tombstoned" -> s1 [] stage = "cache" -> s2 [] stage = "wal" -> s3
 GCrashDel(S, lo, hi, stage) ==
-  /\ "crash" \in Acts /\ "delete" \in Acts /\ En_Crash(st) /\ En_DelBegin(st) /\ AllIdle(st)
+  /\ "crash" \in Acts /\ "delete" \in Acts /\ "delete" \in CrashIn /\ En_Crash(st) /\ En_DelBegin(st) /\ AllIdle(st)
   /\ DelFirst(DelBegin(st, S, lo, hi)).dpc = "tomb"     \* some measurement gets past the early return
   /\ LET s1 == DelTo(st, S, lo, hi, stage) IN st' = Crash(s1, LenT(s1), FALSE)
   /\ Log([a |-> "crash", in |-> "delete", sel |-> S, lo |-> lo, hi |-> hi, open |-> FALSE, stage |-> stage])
@@ -102,7 +103,7 @@ GRestart == /\ ~st.up /\ st.rpc = "down"
             /\ st' = Restart(st)
             /\ Log([a |-> "restart"])
 GRestartCrash ==        \* the recovering process dies after Engine.cleanup, before the WAL is replayed
-            /\ "crash" \in Acts /\ ~st.up /\ st.rpc = "down" /\ st.nCr < MaxCrash
+            /\ "crash" \in Acts /\ "restart" \in CrashIn /\ ~st.up /\ st.rpc = "down" /\ st.nCr < MaxCrash
             /\ LET s1 == RecCleanup(st) IN st' = [Crash(s1, LenT(s1), FALSE) EXCEPT !.rpc = "down"]
             /\ Log([a |-> "restartcrash"])
 
